@@ -2,24 +2,36 @@
 
 A *program* is a base value (a list of 0..N strings of lengths 0..M -> EncodedRaggedArray, or one string ->
 EncodedArray, built with bnp.as_encoded_array in a given encoding) followed by a sequence of <= 3 operations from
-the property statement.  Every program is executed from scratch on the real classes; after EVERY step the run-time
-contract is evaluated:
+the property statement.  Every program is executed from scratch on the real classes and the run-time contract is
+evaluated on the result of its LAST step:
 
     type(result) is the encoded class of the right rank,  result.encoding == operand encoding,
     decode(result) == the same operation applied to the Python list of strings / the Python string.
 
-The oracle (functions `model_*`) is plain Python on `list[str]` / `str`; it never calls bionumpy.  Views are
-modelled by value only: after an assignment only the object assigned to is compared (NumPy and list semantics agree
-there), except for `copy()`, where independence of the copy from the original is a contract of its own.
+Intermediate objects are deliberately NOT looked at: decoding an EncodedRaggedArray flattens a lazy view in place, so
+observing it would erase the history (non-contiguous views produced by earlier indexing steps) the property is
+about.  Every prefix of a program is a program of its own, so every step is still checked.  Only when a program fails
+is it re-run with the contract after every step, to attribute the failure to the first failing step (signature
+`<kind>.<op>[:<sub-class>]:<failure>`); failures that need an un-observed intermediate get `:unobserved-history`.
+
+The oracle (functions `model_*`, `observe_*`: expected part) is plain Python on `list[str]` / `str`; it never calls
+bionumpy.  Views are modelled by value only: after an assignment only the object assigned to is compared (NumPy and
+list semantics agree there), except for `copy()`, where independence of the copy is a contract of its own.
+Assigned values have the length of the target (or are one character, meaning "every selected position").
 
 Transforms  (R = ragged, F = flat 1-d, M = 2-d matrix obtained by reshape, C = 0-d):
-  R: a[i] a[slice] a[mask] a[fancy] a[:,slice] a[rs,cs] a[:,j] a[fancy,j] a[i,j] a[i,slice] a[a==c] copy ravel
-     np.concatenate  strops.join  bnp.ragged_slice  item assignment (row, column, column slice, row slice, row
-     mask, fancy rows, character mask)
-  F: f[i] f[slice] f[mask] f[fancy] f[f==c] copy ravel np.concatenate np.append np.insert strops.split assignment
+  R: a[i] a[slice] a[mask] a[fancy] a[:,slice] a[rs,cs] a[:,j] a[fancy,j] a[rows,cols] a[i,j] a[i,slice] a[a==c] copy
+     ravel np.concatenate as_encoded_array(list of rows) strops.join bnp.ragged_slice; item assignment to a row, an
+     item, a column, a column slice, a row slice, a row mask, fancy rows, (rows, cols) pairs, a character mask
+  F: f[i] f[slice] f[mask] f[fancy] f[f==c] copy ravel reshape np.concatenate np.append np.insert np.where
+     np.zeros_like f[np.argsort(f)] strops.split; assignment to an item, a slice, a mask, fancy indices, a character mask
+  M: m[i] m[:,j] m[i,j] m[rs,cs] m[mask] m[fancy] ravel T copy np.concatenate; assignment to a row, a column, a mask
 Observations (last step only): tolist / to_string / str / iteration / from_encoded_array / raw codes / len /
-  lengths, == and != with a character, a string, a list of strings, an array in the same and in the base encoding,
-  strops.str_equal, string_array(...).tolist(), copy independence.
+  lengths / np.bincount, == and != with a character, a string, a list of strings, an array in the same and in the
+  base encoding, strops.str_equal (string and ragged), string_array(...).tolist(), independence of copy().
+Not exercised: column boolean-mask / fancy-list indexing a[:, [..]] (npstructures raises for every input, i.e. not a
+  supported operation), broadcasting assignments of a shorter string, list-of-str values in assignments, programs
+  longer than 3, rows > 4, row length > 3, lower-case input (C06), StringArray operations other than the conversion.
 """
 import itertools
 
@@ -892,7 +904,7 @@ def gen_F(ctx, s, level, writable=True, want_obs=True):
         O += [["ne_str", "last", "same"]]
         O += [["copy_indep"]]
     O += [["streq", x] for x in sorted({s, s[:-1], ctx.rot(s), s + present})]
-    O += [["bincount"], ["hash"]]
+    O += [["bincount"]]
     return T, O
 
 
@@ -1133,11 +1145,12 @@ def run(tier="quick", seed=0):
     import os
     col = Collector("C07", tier, seed,
                     "program = (encoding, base list of strings or base string, <=3 operations of the statement); every program is run from "
-                    "scratch on the real classes and the contract (class/rank, encoding == operand encoding, decoded value == the same "
-                    "operation on the Python list of strings) is evaluated after every step. Exhaustive for depth <= 2 over the stated shapes "
-                    "and operation sets (FULL: every slice start/stop in -n-1..n+1|None x step None,2,-1,-2, every mask, every fancy list of "
-                    "<=2 indices, every item, all assignment and observation forms; MID/CORE: stated subsets); depth 3 is a seeded sample. "
-                    "distinct = distinct (encoding, base, program)")
+                    "scratch on the real classes, intermediate objects untouched, and the contract (class/rank, encoding == operand "
+                    "encoding, decoded value == the same operation on the Python list of strings) is evaluated on its last step (every "
+                    "prefix is a program of its own). Exhaustive for depth <= 2 over the stated shapes and operation sets (FULL: every slice "
+                    "start/stop in -n-1..n+1|None x step None,2,-1,-2, every mask, every fancy list of <=2 indices, every item, all "
+                    "assignment and observation forms; MID/CORE: stated subsets); depth 3 is a seeded sample of CORE x CORE x (CORE + "
+                    "observations). distinct = distinct (encoding, base, program); programs on an empty base are counted trivial")
     P = plan(tier)
     col.bounds = {"encodings": ENCS_MAIN + ENCS_OTHER, "program_len": "0..3", "rows": "0..3 (quick), 0..4 (thorough)", "row_len": "0..3",
                   "flat_len": "0..4 (quick), 0..6 (thorough)", "matrix": "every r x c = flat_len reshaping (depth >= 2)",
